@@ -11,17 +11,20 @@ namespace Pilota.TGen
 open Pilota Pilota.Thrift
 
 inductive OutL (α : Type) where
-  | ok (a : α)
+  /-- `tail`: the value just decoded ends with an EMPTY `binary` that was read when nothing was left in the buffer.
+  `Bytes::split_to(at)` hands over the whole buffer handle when `at == len` — also for `at = 0` — so that empty
+  `Bytes` keeps the input alive although it owns no byte of it (found by T1 at the thorough tier). -/
+  | ok (a : α) (tail : Bool := false)
   | err (leaked : Nat)
   | panic
   | fuel
   deriving Repr
 
 def OutL.ofOut {α} : Out α → OutL α
-  | .ok a => .ok a | .err _ => .err 0 | .panic _ => .panic | .fuel => .fuel
+  | .ok a => .ok a false | .err _ => .err 0 | .panic _ => .panic | .fuel => .fuel
 
 def OutL.erase {α} : OutL α → Out α
-  | .ok a => .ok a | .err _ => .err .invalid | .panic => .panic "" | .fuel => .fuel
+  | .ok a _ => .ok a | .err _ => .err .invalid | .panic => .panic "" | .fuel => .fuel
 
 /-- `FastStr` inlines up to 24 bytes; longer strings keep a reference to the input buffer. -/
 def inlineCap : Nat := 24
@@ -51,30 +54,30 @@ mutual
 def decTyL : Nat → STy → σ → OutL (TVal × σ)
   | 0, _, _ => .fuel
   | f+1, .list e, s => match R.listBegin s with
-    | .ok ((_, n), s) => match decNL f e n [] s with
-      | .ok (xs, s) => .ok (.list (d.ttype e) (TVals.ofList xs), s)
+    | .ok ((_, n), s) => match decNL f e n [] false s with
+      | .ok (xs, s) t => .ok (.list (d.ttype e) (TVals.ofList xs), s) t
       | .err l => .err l | .panic => .panic | .fuel => .fuel
     | o => OutL.ofOut (mapOut (fun x => (TVal.bool false, x.2)) o)
   | f+1, .set e, s => match R.listBegin s with
-    | .ok ((_, n), s) => match decNS f e n [] s with
-      | .ok (xs, s) => .ok (.set (d.ttype e) (TVals.ofList (xs.foldl setInsert [])), s)
+    | .ok ((_, n), s) => match decNS f e n [] false s with
+      | .ok (xs, s) t => .ok (.set (d.ttype e) (TVals.ofList (xs.foldl setInsert [])), s) t
       | .err l => .err l | .panic => .panic | .fuel => .fuel
     | o => OutL.ofOut (mapOut (fun x => (TVal.bool false, x.2)) o)
   | f+1, .map k v, s => match R.mapBegin s with
-    | .ok ((_, _, n), s) => match decPairsL f k v n [] s with
-      | .ok (kvs, s) => .ok (.map (d.ttype k) (d.ttype v) (TPairs.ofList (kvs.foldl (fun a p => mapInsert a p.1 p.2) [])), s)
+    | .ok ((_, _, n), s) => match decPairsL f k v n [] false s with
+      | .ok (kvs, s) t => .ok (.map (d.ttype k) (d.ttype v) (TPairs.ofList (kvs.foldl (fun a p => mapInsert a p.1 p.2) [])), s) t
       | .err l => .err l | .panic => .panic | .fuel => .fuel
     | o => OutL.ofOut (mapOut (fun x => (TVal.bool false, x.2)) o)
   | f+1, .ref n, s => match d.find n with
     | some (.struct fs) => match decFieldsL f fs [] (R.structBegin s) with
-      | .ok (slots, s) => match R.structEnd s with
+      | .ok (slots, s) _ => match R.structEnd s with
         | .ok s => match finish fs slots with
           | .ok out => .ok (.struct (TFields.ofList out), s)
           | _ => .err 0                       -- required field missing: every local is dropped
         | _ => .err 0
       | .err l => .err l | .panic => .panic | .fuel => .fuel
     | some (.union vs) => match decUnionL f vs none (R.structBegin s) with
-      | .ok (ret, s) => match R.structEnd s with
+      | .ok (ret, s) _ => match R.structEnd s with
         | .ok s => match ret with
           | some (id, v) => .ok (.struct (.cons id v .nil), s)
           | none => match vs with
@@ -85,28 +88,31 @@ def decTyL : Nat → STy → σ → OutL (TVal × σ)
     | some .enum => OutL.ofOut (mapOut (fun x => (.i32 x.1, x.2)) (R.readI32 s))
     | some (.typedef t) => decTyL f t s
     | none => .panic
+  | f+1, .binary, s => match decTy R d (f+1) .binary s with
+    | .ok (v, s') => .ok (v, s') (v == .bin [] && R.remaining s' == 0)
+    | o => OutL.ofOut o
   | f+1, t, s => OutL.ofOut (decTy R d (f+1) t s)          -- base types allocate nothing before they can fail
 /-- the list arm: elements already written are unreachable when a later element fails (sync only). -/
-def decNL : Nat → STy → Nat → List TVal → σ → OutL (List TVal × σ)
-  | 0, _, _, _, _ => .fuel
-  | _+1, _, 0, acc, s => .ok (acc.reverse, s)
-  | f+1, e, n+1, acc, s => match decTyL f e s with
-    | .ok (v, s) => decNL f e n (v :: acc) s
-    | .err l => .err (l + (if sync then ((acc.map (owned d (d.length + 64) e)).sum) else 0))
+def decNL : Nat → STy → Nat → List TVal → Bool → σ → OutL (List TVal × σ)
+  | 0, _, _, _, _, _ => .fuel
+  | _+1, _, 0, acc, t, s => .ok (acc.reverse, s) t
+  | f+1, e, n+1, acc, t, s => match decTyL f e s with
+    | .ok (v, s) t' => decNL f e n (v :: acc) t' s
+    | .err l => .err (l + (if sync then ((acc.map (owned d (d.length + 64) e)).sum) + (if t then 1 else 0) else 0))
     | .panic => .panic | .fuel => .fuel
 /-- set elements live in the set, which is dropped on error. -/
-def decNS : Nat → STy → Nat → List TVal → σ → OutL (List TVal × σ)
-  | 0, _, _, _, _ => .fuel
-  | _+1, _, 0, acc, s => .ok (acc.reverse, s)
-  | f+1, e, n+1, acc, s => match decTyL f e s with
-    | .ok (v, s) => decNS f e n (v :: acc) s
-    | .err l => .err l | .panic => .panic | .fuel => .fuel
-def decPairsL : Nat → STy → STy → Nat → List (TVal × TVal) → σ → OutL (List (TVal × TVal) × σ)
+def decNS : Nat → STy → Nat → List TVal → Bool → σ → OutL (List TVal × σ)
   | 0, _, _, _, _, _ => .fuel
-  | _+1, _, _, 0, acc, s => .ok (acc.reverse, s)
-  | f+1, k, v, n+1, acc, s => match decTyL f k s with
-    | .ok (kv, s) => match decTyL f v s with
-      | .ok (vv, s) => decPairsL f k v n ((kv, vv) :: acc) s
+  | _+1, _, 0, acc, t, s => .ok (acc.reverse, s) t
+  | f+1, e, n+1, acc, _, s => match decTyL f e s with
+    | .ok (v, s) t' => decNS f e n (v :: acc) (t' && !acc.contains v) s     -- `insert` drops an element that is already there
+    | .err l => .err l | .panic => .panic | .fuel => .fuel
+def decPairsL : Nat → STy → STy → Nat → List (TVal × TVal) → Bool → σ → OutL (List (TVal × TVal) × σ)
+  | 0, _, _, _, _, _, _ => .fuel
+  | _+1, _, _, 0, acc, t, s => .ok (acc.reverse, s) t
+  | f+1, k, v, n+1, acc, _, s => match decTyL f k s with
+    | .ok (kv, s) _ => match decTyL f v s with
+      | .ok (vv, s) t' => decPairsL f k v n ((kv, vv) :: acc) t' s        -- the value read last is the one the map keeps
       | .err l => .err l | .panic => .panic | .fuel => .fuel
     | .err l => .err l | .panic => .panic | .fuel => .fuel
 def decFieldsL : Nat → List Field → List (Int × TVal) → σ → OutL (List (Int × TVal) × σ)
@@ -116,7 +122,7 @@ def decFieldsL : Nat → List Field → List (Int × TVal) → σ → OutL (List
       if t = .stop then .ok (slots, s)
       else match fs.find? (fun fl => fl.id == id && d.ttype fl.ty == t) with
         | some fl => match decTyL f fl.ty s with
-          | .ok (v, s) => decFieldsL f fs (slotSet slots id v) s
+          | .ok (v, s) _ => decFieldsL f fs (slotSet slots id v) s
           | .err l => .err l | .panic => .panic | .fuel => .fuel
         | none => match R.skip t s with
           | .ok s => decFieldsL f fs slots s
@@ -131,7 +137,7 @@ def decUnionL : Nat → List (Int × STy) → Option (Int × TVal) → σ → Ou
         | some (_, ty) =>
           if ret.isSome then .err 0
           else match decTyL f ty s with
-            | .ok (v, s) => decUnionL f vs (some (id, v)) s
+            | .ok (v, s) _ => decUnionL f vs (some (id, v)) s
             | .err l => .err l | .panic => .panic | .fuel => .fuel
         | none => match R.skip t s with
           | .ok s => decUnionL f vs ret s
